@@ -38,8 +38,10 @@ CLAIMED = {
     "C11": dict(
         text="Proof: Coq theorems C11_tcp / C11_udp: for every well-formed abstract packet (IPv4/IPv6, any length, any bytes) the model of calculate_checksum_* "
              "answers exactly RFC 1071 verification (one's-complement sum of pseudo-header and segment including the checksum field is 0xFFFF), spec given as a "
-             "fold of end-around-carry additions; closed under the global context. Model tied to checksums.py by correspondence on boundary-steered frames. "
-             "The capture-level filter equation is stated on the main-loop model once that exists; end-to-end runs validate it meanwhile.",
+             "fold of end-around-carry additions (the IPv6 pseudo-header names the upper-layer protocol whatever extension headers precede); C11_filter: with -c the whole run "
+             "-- reading, decrypting, building -- on a capture equals the run without -c on the capture from which the packets that fail the check have been removed "
+             "(C11_answers: the check answers for every well-formed packet). Closed under the global context. Model tied to checksums.py by correspondence on "
+             "boundary-steered frames, every third IPv6 frame with extension headers.",
         note="Trusted: Coq kernel; Spec/Rfc1071.v; the abstract packet (dpkt parsing modelled, not verified; IPv6 pseudo-header with the upper-layer protocol whatever extension headers precede; UDP/IPv4 checksum 0 excluded); "
              "tools/ref/synth.py frame builder; extraction/driver.",
         technique="Coq proof (mod-65535 arithmetic with lia + Euclidean hooks, word-splitting lemmas) + boundary-steered correspondence",
